@@ -27,7 +27,10 @@
 (***************************************************************************)
 EXTENDS Heap, Json
 
-CONSTANTS MaxLen, CopyOnCompute
+CONSTANTS MaxLen, CopyOnCompute,
+          Classes       \* classes of the context objects ("dict", "Context", ..: see IsolationSem); the semantics do
+                        \* not depend on it; CopyOnCompute = "clsshallow": what if the deep copy of a context that is
+                        \* not a plain dict copied the top level only
 
 \* nres: number of results of one compute() / request() call (SplitIntoBins, Vectorize, Split or Zip of
 \* accumulators, FillRequest over such elements, Mean with a multi-result sum_seq yield several);
@@ -43,11 +46,14 @@ Muts == {Inc("a"), SetK("z", 9), SetN("n", "b", 7), MakeFn("g"), SetN("variable"
 Del(c, ks) == [x \in (DOMAIN c) \ ks |-> c[x]]
 Own(k) == IF k.t = "count" THEN {k.name} ELSE {}
 
-VARIABLES kind, M, src, srcx, cur, nf, res, op, mj, h
-vars == <<kind, M, src, srcx, cur, nf, res, op, mj, h>>
+\* cfg: a configuration object of the element that the caller passed in (the var_context of the Variable of a
+\* SplitIntoBins, edges ..): no action changes it (CopyOnCompute = "cfgwrite": what if compute() wrote into it)
+CfgVal == [name |-> 1, n |-> [b |-> 2]]
+VARIABLES kind, cls, cfg, M, src, srcx, cur, nf, res, op, mj, h
+vars == <<kind, cls, cfg, M, src, srcx, cur, nf, res, op, mj, h>>
 
-Init == /\ kind \in AKinds
-        /\ LET r == AllocCtx(EmptyHeap, <<>>) IN M = r.M /\ cur = r.id
+Init == /\ kind \in AKinds /\ cls \in Classes /\ (cls # "dict" => kind = Plain)
+        /\ LET r == AllocCtx(EmptyHeap, <<>>)  r2 == AllocCtx(r.M, CfgVal) IN M = r2.M /\ cur = r.id /\ cfg = r2.id
         /\ src = <<>> /\ srcx = <<>> /\ nf = 0 /\ res = <<>> /\ op = "init" /\ mj = 0 /\ h = <<>>
 
 SrcSnaps(hh) == [i \in 1..Len(src) |-> SnapCtx(hh, src[i].c)]
@@ -59,15 +65,16 @@ Log(name, arg, MM, ss, rs) == [op |-> name, arg |-> arg,
 FillA(c) == /\ LET r == AllocVal(M, [d |-> <<1>>, c |-> c]) IN
                  /\ M' = r.M /\ src' = Append(src, r.v) /\ cur' = r.v.c
             /\ srcx' = Append(srcx, c) /\ nf' = nf + 1 /\ op' = "fill" /\ mj' = 0
-            /\ UNCHANGED <<kind, res>>
+            /\ UNCHANGED <<kind, cls, cfg, res>>
 \* what compute() would yield now (the context, as a pure value)
 YieldNow(MM, cid, n) == LET c == SnapCtx(MM.h, cid) IN IF kind.t = "count" THEN Put(c, kind.name, n) ELSE c
 \* the contexts of the results of one call: [M, ids]
 RECURSIVE YieldCopies(_, _, _, _)
 YieldCopies(MM, cid, k, first) ==
   IF k = 0 THEN [M |-> MM, ids |-> <<>>]
-  ELSE CASE CopyOnCompute = "each" ->          \* the code: copy.deepcopy for every result
-              LET r == DeepCopyCtx(MM, cid)  rest == YieldCopies(r.M, cid, k - 1, first)
+  ELSE CASE CopyOnCompute \in {"each", "clsshallow", "cfgwrite"} ->          \* the code: copy.deepcopy for every result
+              LET r == IF CopyOnCompute = "clsshallow" /\ cls # "dict" THEN ShallowCopyCtx(MM, cid) ELSE DeepCopyCtx(MM, cid)
+                  rest == YieldCopies(r.M, cid, k - 1, first)
               IN [M |-> rest.M, ids |-> <<r.id>> \o rest.ids]
          [] CopyOnCompute = "once" ->          \* one copy per call, shared by its results
               IF first = 0 THEN LET r == DeepCopyCtx(MM, cid)  rest == YieldCopies(r.M, cid, k - 1, r.id)
@@ -75,11 +82,12 @@ YieldCopies(MM, cid, k, first) ==
               ELSE LET rest == YieldCopies(MM, cid, k - 1, first) IN [M |-> rest.M, ids |-> <<first>> \o rest.ids]
          [] OTHER ->                           \* "none": the stored context itself
               LET rest == YieldCopies(MM, cid, k - 1, first) IN [M |-> rest.M, ids |-> <<cid>> \o rest.ids]
-ComputeA == /\ LET M1 == IF kind.t = "count" THEN HSetKey(M, cur, kind.name, nf) ELSE M
+ComputeA == /\ LET M0 == IF CopyOnCompute = "cfgwrite" THEN HSetNested(M, cfg, SetN("n", "compose", 1)) ELSE M
+                   M1 == IF kind.t = "count" THEN HSetKey(M0, cur, kind.name, nf) ELSE M0
                    r == YieldCopies(M1, cur, kind.nres, 0)
                IN /\ M' = r.M
                   /\ res' = res \o [j \in 1..Len(r.ids) |-> [c |-> r.ids[j], x |-> SnapCtx(r.M.h, r.ids[j])]]
-            /\ op' = "compute" /\ mj' = 0 /\ UNCHANGED <<kind, src, srcx, cur, nf>>
+            /\ op' = "compute" /\ mj' = 0 /\ UNCHANGED <<kind, cls, cfg, src, srcx, cur, nf>>
 MutCtx(MM, cid, mu) ==
   CASE mu.t = "inc" -> HSetKey(MM, cid, mu.key, (IF mu.key \in DOMAIN MM.h[cid].m THEN MM.h[cid].m[mu.key] ELSE 0) + 1)
     [] mu.t = "set" -> HSetKey(MM, cid, mu.key, mu.x)
@@ -88,7 +96,7 @@ MutCtx(MM, cid, mu) ==
 MutateA(j, mu) == /\ j \in 1..Len(res)
                   /\ M' = MutCtx(M, res[j].c, mu)
                   /\ res' = [res EXCEPT ![j].x = SnapCtx(M'.h, res[j].c)]
-                  /\ op' = "mutate" /\ mj' = j /\ UNCHANGED <<kind, src, srcx, cur, nf>>
+                  /\ op' = "mutate" /\ mj' = j /\ UNCHANGED <<kind, cls, cfg, src, srcx, cur, nf>>
 
 Fill == Len(h) < MaxLen /\ \E c \in CtxVals : FillA(c) /\ h' = Append(h, Log("f", c, M', src', res'))
 Compute == Len(h) < MaxLen /\ ComputeA /\ h' = Append(h, Log("c", 0, M', src', res'))
@@ -119,5 +127,8 @@ YieldsLast == op = "compute" =>
    \A j \in (Len(res) - kind.nres + 1)..Len(res) :
       Del(res[j].x, Own(kind)) = Del((IF nf = 0 THEN <<>> ELSE srcx[Len(srcx)]), Own(kind))
 
-Emitted == (Len(h) = MaxLen) => PrintT(ToJson([kind |-> kind, h |-> h]))
+\* the element's configuration keeps its value and shares nothing with what is yielded
+ConfigIntact == /\ SnapCtx(M.h, cfg) = CfgVal
+                /\ \A j \in 1..Len(res) : ReachCtx(M.h, res[j].c) \cap ReachCtx(M.h, cfg) = {}
+Emitted == (Len(h) = MaxLen) => PrintT(ToJson([kind |-> kind, cls |-> cls, h |-> h]))
 =============================================================================
